@@ -29,6 +29,7 @@ Theorems (all for every grammar, node, rule, input, state, fuel; no side conditi
 No counterexample: `skip_until` (repaired) scans `[pos, end)` only, and the model follows it.
 -/
 import PestTyped.Lemmas.Shift
+import PestTyped.Lemmas.ResProj
 import PestTyped.Model.Gen
 namespace PestTyped
 
@@ -216,9 +217,7 @@ theorem C08_span_bounds (pre mid post : List Char) :
 /-! ### non-vacuity: a concrete grammar exercising SOI, EOI, the stack, skip-until and an
 insensitive literal, on a Span cut out of a longer string with a multi-byte prefix -/
 
-def Res.okPos? {σ α} : Res σ α → Option Nat
-  | .ok i _ _ => some i.pos
-  | _ => none
+-- `Res.okPos?`: see `Lemmas/ResProj`.
 
 def Res.okStk? {α} : R α → Option (List Sp)
   | .ok _ m _ => some m.stk
